@@ -18,6 +18,9 @@ _user_resources = {}
 # (the wrappers' core_resource= / sdram_resource= / sram_resource= options)
 # this maps "Cores" / "SDRAM" / "SRAM" to those identifiers.
 _alias = {}
+# set per case by the problem builders: user-defined resources are identified
+# by equal-but-distinct objects
+_fresh = False
 
 
 def resource(name):
@@ -28,6 +31,11 @@ def resource(name):
     std = {"Cores": Cores, "SDRAM": SDRAM, "SRAM": SRAM}
     if name in std:
         return std[name]
+    if _fresh:
+        # an identifier that is equal to, but never the same object as, the
+        # one used elsewhere for this resource (any hashable object may
+        # identify a resource; programs build such keys at run time)
+        return tuple(["user resource", name])
     if name not in _user_resources:
         import sentinel
         _user_resources[name] = sentinel.create("User_" + name)
@@ -45,6 +53,8 @@ def resource_name(obj):
     for n, o in _user_resources.items():
         if obj is o:
             return n
+    if isinstance(obj, tuple) and len(obj) == 2 and obj[0] == "user resource":
+        return obj[1]
     raise KeyError(obj)
 
 
